@@ -31,6 +31,9 @@ func init() {
 		Impl:     impl,
 		Check:    check,
 		NonTrivial: func(c core.Case, out []string) bool {
+			if isHist(c) {
+				return len(c.Lines) > 2
+			}
 			s, ok := subject(c)
 			if !ok || len(c.Lines) < 2 {
 				return false
@@ -45,7 +48,7 @@ func init() {
 			}
 			return false
 		},
-		Rule:     "one subject string and 1..8 independent calls on it. Streams: mixed = 0..9 fragments of {a,B,_,1,é,你,😀,\\xff,\\xe4\\xbd}; edge = the same mixed 50/50 with boundary scalars of every encoded length (U+7F,U+80,U+7FF,U+800,U+D7FF,U+E000,U+FFFD,U+FFFF,U+10000,U+10FFFF) and malformed sequences (lone continuation, truncated 2/3/4-byte, overlong, surrogate, >U+10FFFF, 0xf8); ident = words of the grammar [a-z][a-z0-9]*(_[a-z][a-z0-9]*)*; ident-mutated = one insertion of _,A,Z,1,é,你,\\xff,_1 into such a word; camel = the camelCase/PascalCase image of such a word. Arguments 0..runeCount+3 (30% within ±1..3 of the end, 30% in the lower half so that sums stay inside), 4% huge (MaxInt64-k, MaxInt64/2+k, MaxInt64-runeCount-k, 2^31..2^62: sums wrap around in int), -1 for Sub's length, 2% negative (correspondence only). large (header `@ C17 L`) = subjects of 1 000-16 384 runes (rarely 65 535-65 537; thorough up to 100 000) of mixed / single / single-wide-rune-in-ASCII / invalid composition and identifiers of 500+ segments, arguments 0,1,n-1,n,n+1,2n,MaxInt64-k and 255..65537, masks of 0, 1, up to 6000 runes. Corpus: every string of ≤ 3 fragments with every in-scope argument. Non-trivial = the subject contains a multi-byte rune or an invalid byte, or is a grammar identifier with at least one underscore; distinct by hash of subject+ops",
+		Rule:     "one subject string and 1..8 independent calls on it. Streams: mixed = 0..9 fragments of {a,B,_,1,é,你,😀,\\xff,\\xe4\\xbd}; edge = the same mixed 50/50 with boundary scalars of every encoded length (U+7F,U+80,U+7FF,U+800,U+D7FF,U+E000,U+FFFD,U+FFFF,U+10000,U+10FFFF) and malformed sequences (lone continuation, truncated 2/3/4-byte, overlong, surrogate, >U+10FFFF, 0xf8); ident = words of the grammar [a-z][a-z0-9]*(_[a-z][a-z0-9]*)*; ident-mutated = one insertion of _,A,Z,1,é,你,\\xff,_1 into such a word; camel = the camelCase/PascalCase image of such a word. Arguments 0..runeCount+3 (30% within ±1..3 of the end, 30% in the lower half so that sums stay inside), 4% huge (MaxInt64-k, MaxInt64/2+k, MaxInt64-runeCount-k, 2^31..2^62: sums wrap around in int), -1 for Sub's length, 2% negative (correspondence only). history (header `@ C17 H`) = 3-8 calls on DIFFERENT subjects per case (lines `on <hex> <op>`): long results (>= 1024 / 4096, rarely 65536 bytes) followed by calls of the same and other functions on other subjects, RemoveRunes with a predicate that panics at its nth invocation (recovered) followed by ordinary calls; every returned string is kept with an independent copy and re-compared after every later call (results ledger, also within the ordinary cases); large (header `@ C17 L`) = subjects of 1 000-16 384 runes (rarely 65 535-65 537; thorough up to 100 000) of mixed / single / single-wide-rune-in-ASCII / invalid composition and identifiers of 500+ segments, arguments 0,1,n-1,n,n+1,2n,MaxInt64-k and 255..65537, masks of 0, 1, up to 6000 runes. Corpus: every string of ≤ 3 fragments with every in-scope argument. Non-trivial = the subject contains a multi-byte rune or an invalid byte, or is a grammar identifier with at least one underscore; distinct by hash of subject+ops",
 		Classify: classify,
 		Parallel: true,
 		Extras:   []core.Extra{Utf8TieExtra()},
@@ -167,6 +170,13 @@ func corpus() []core.Case {
 			"sub 9223372036854775807 9223372036854775807", "sub 1 9223372036854775807", "sub 9223372036854775807 -1", "sub 0 9223372036854775807",
 			"sub 2 9223372036854775806", "subd 9223372036854775807", "subd 4611686018427387904"),
 		mk("a你😀\xffb", "mask 2a 9223372036854775807 5", "mask e4bda0 9223372036854775804 9", "sub 3 9223372036854775805", "subd 9223372036854775807"),
+		// history: long results watched while later calls run; a recovered predicate panic, then ordinary calls
+		{Lines: []string{"@ C17 H", "on " + hx(strings.Repeat("ab你", 500)) + " rev", "on " + hx(strings.Repeat("xyz😀", 300)) + " rev",
+			"on " + hx(strings.Repeat("q", 1500)) + " rev", "on " + hx("abc") + " rev", "on " + hx(strings.Repeat("ab你", 500)) + " remove " + hx("a"),
+			"on " + hx(strings.Repeat("cd你", 450)) + " remove " + hx("你")}, Tag: "corpus"},
+		{Lines: []string{"@ C17 H", "on " + hx("hello world") + " removepanic " + hx("l") + " 5", "on " + hx("abc") + " remove " + hx("b"),
+			"on " + hx("héllo") + " removepanic " + hx("l") + " 1", "on " + hx("xyz") + " remove " + hx("q"), "on " + hx("wörld") + " remove " + hx("ö"),
+			"on " + hx("abc") + " removepanic " + hx("c") + " 9", "on " + hx("abc") + " rev"}, Tag: "corpus"},
 		mk("", allOps("")...),
 		mk("a\xffb", "subd 2", "subd 1", "sub 1 1", "rev", "remove "+hx("�")),
 		mk("foo_bar_x1", "round true", "round false", "s2c true", "s2c false", "c2s"),
@@ -395,7 +405,105 @@ func genLarge(r *core.Rand, tier string) core.Case {
 	return core.Case{Lines: lines, Tag: "large"}
 }
 
+// genHist: HISTORY cases (header `@ C17 H`): several calls on DIFFERENT subjects in one case, so
+// that results of earlier calls (incl. long ones >= 1024 / 4096 / 65536 bytes) are watched by the
+// results ledger while later calls run, and calls with a PANICKING predicate (recovered) are
+// followed by ordinary calls.
+func genHist(r *core.Rand, tier string) core.Case {
+	subj := func(long bool) string {
+		n := r.Range(0, 12)
+		if long {
+			n = []int{300, 400, 1024, 1100, 1400, 2000}[r.Intn(6)]
+			if r.Chance(25) {
+				n = []int{4096, 4200, 5000}[r.Intn(3)]
+			}
+			if r.Chance(4) || (tier == "thorough" && r.Chance(15)) {
+				n = []int{22000, 65536, 66000}[r.Intn(3)]
+			}
+		}
+		var sb strings.Builder
+		fs := []string{"a", "b", "_", "é", "你", "😀", "x", "Q"}
+		ascii := r.Chance(30)
+		bad := r.Chance(10)
+		for i := 0; i < n; i++ {
+			switch {
+			case ascii:
+				sb.WriteByte(byte('a' + r.Intn(26)))
+			case bad && r.Chance(5):
+				sb.WriteString("\xff")
+			default:
+				sb.WriteString(fs[r.Intn(len(fs))])
+			}
+		}
+		return sb.String()
+	}
+	op := func(s string) string {
+		n := utf8.RuneCountInString(s)
+		switch r.Pick(6, 4, 4, 2, 2, 1, 1, 1, 1) {
+		case 0:
+			return "rev"
+		case 1:
+			return "remove " + hx([]string{"a", "你", "_", "aé", "😀", "q"}[r.Intn(6)])
+		case 2:
+			nth := r.Range(1, n+2)
+			if r.Chance(30) {
+				nth = r.Range(1, 3)
+			}
+			return fmt.Sprintf("removepanic %s %d", hx([]string{"a", "你", "_", "aé"}[r.Intn(4)]), nth)
+		case 3:
+			return fmt.Sprintf("sub %d %d", r.Range(0, n/2+1), r.Range(-1, n+1))
+		case 4:
+			return fmt.Sprintf("mask %s %d %d", hx([]string{"*", "你", "", "#é"}[r.Intn(4)]), r.Range(0, n/2+1), r.Range(0, n/2+1))
+		case 5:
+			return "s2c " + strconv.FormatBool(r.Bool())
+		case 6:
+			return "c2s"
+		case 7:
+			return fmt.Sprintf("subd %d", r.Range(0, len(s)+1))
+		default:
+			return []string{"ucfirst", "lcfirst", "len"}[r.Intn(3)]
+		}
+	}
+	lines := []string{"@ C17 H"}
+	k := r.Range(3, 8)
+	style := r.Pick(4, 3, 3)
+	for i := 0; i < k; i++ {
+		var s, o string
+		switch style {
+		case 0: // long results first, then calls of the same function on other subjects of similar and smaller size
+			s = subj(i < 2 || r.Chance(40))
+			o = op(s)
+			if r.Chance(60) {
+				o = []string{"rev", "rev", "remove " + hx("a"), "remove " + hx("你")}[r.Intn(4)]
+			}
+		case 1: // a recovered predicate panic somewhere, ordinary calls after it
+			s = subj(r.Chance(30))
+			if i == 0 || r.Chance(35) {
+				if s == "" {
+					s = "abc你"
+				}
+				o = fmt.Sprintf("removepanic %s %d", hx([]string{"a", "你", "_", "b"}[r.Intn(4)]), r.Range(1, utf8.RuneCountInString(s)))
+			} else if r.Chance(60) {
+				o = "remove " + hx([]string{"a", "你", "_", "b"}[r.Intn(4)])
+			} else {
+				o = op(s)
+			}
+		default:
+			s = subj(r.Chance(35))
+			o = op(s)
+		}
+		lines = append(lines, "on "+hx(s)+" "+o)
+		if r.Chance(25) { // the same call again (pooled memory is most likely handed out again at once)
+			lines = append(lines, "on "+hx(s)+" "+o)
+		}
+	}
+	return core.Case{Lines: lines, Tag: "history"}
+}
+
 func gen(r *core.Rand, tier string) core.Case {
+	if (tier == "thorough" && r.Intn(1000) < 25) || (tier != "thorough" && r.Intn(1000) < 12) {
+		return genHist(r, tier)
+	}
 	// large stream: ~0.3 % of the cases in quick (about 300), 0.1 % of the (30x larger) thorough budget
 	if (tier != "thorough" && r.Intn(1000) < 3) || (tier == "thorough" && r.Intn(1000) < 1) {
 		return genLarge(r, tier)
@@ -517,7 +625,36 @@ func gen(r *core.Rand, tier string) core.Case {
 
 // ---- implementation adapter
 
-func call(s string, t []string) string {
+// ledger: every string the library returned in this case, kept as returned (sharing whatever
+// memory the library handed out) with an independent copy; re-compared after every later call.
+type ledger struct {
+	got []string
+	cp  [][]byte
+}
+
+func (l *ledger) keep(s string) string {
+	if l != nil {
+		l.got = append(l.got, s)
+		l.cp = append(l.cp, []byte(strings.Clone(s)))
+	}
+	return s
+}
+
+func (l *ledger) changed() int {
+	if l == nil {
+		return -1
+	}
+	for i, s := range l.got {
+		if s != string(l.cp[i]) {
+			return i
+		}
+	}
+	return -1
+}
+
+func call(s string, t []string) string { return callL(nil, s, t) }
+
+func callL(led *ledger, s string, t []string) string {
 	atoi := func(x string) (int, bool) {
 		v, err := strconv.Atoi(x)
 		return v, err == nil
@@ -529,7 +666,7 @@ func call(s string, t []string) string {
 		if !ok1 || !ok2 {
 			return "bad-op"
 		}
-		return hx(strz.Sub(s, a, b))
+		return hx(led.keep(strz.Sub(s, a, b)))
 	case len(t) == 4 && t[0] == "mask":
 		m, ok0 := unhx(t[1])
 		a, ok1 := atoi(t[2])
@@ -537,23 +674,23 @@ func call(s string, t []string) string {
 		if !ok0 || !ok1 || !ok2 {
 			return "bad-op"
 		}
-		return hx(strz.Mask(s, m, a, b))
+		return hx(led.keep(strz.Mask(s, m, a, b)))
 	case len(t) == 2 && t[0] == "subd":
 		a, ok := atoi(t[1])
 		if !ok {
 			return "bad-op"
 		}
-		return hx(strz.SubByDisplay(s, a))
+		return hx(led.keep(strz.SubByDisplay(s, a)))
 	case len(t) == 1 && t[0] == "rev":
-		return hx(strz.Rev(s))
+		return hx(led.keep(strz.Rev(s)))
 	case len(t) == 1 && t[0] == "len":
 		return strconv.Itoa(strz.Len(s))
 	case len(t) == 1 && t[0] == "ucfirst":
-		return hx(strz.UcFirst(s))
+		return hx(led.keep(strz.UcFirst(s)))
 	case len(t) == 1 && t[0] == "lcfirst":
-		return hx(strz.LcFirst(s))
+		return hx(led.keep(strz.LcFirst(s)))
 	case len(t) == 1 && t[0] == "c2s":
-		return hx(strz.CamelCaseToSnake(s))
+		return hx(led.keep(strz.CamelCaseToSnake(s)))
 	case len(t) == 1 && t[0] == "isident":
 		// not a call into /repo: ties the Lean grammar of the round-trip theorem to identRe
 		return strconv.FormatBool(identRe.MatchString(s))
@@ -563,31 +700,137 @@ func call(s string, t []string) string {
 			return "bad-op"
 		}
 		rs := []rune(set)
-		return hx(strz.RemoveRunes(s, func(r rune) bool {
+		return hx(led.keep(strz.RemoveRunes(s, func(r rune) bool {
 			for _, x := range rs {
 				if x == r {
 					return true
 				}
 			}
 			return false
-		}))
+		})))
+	case len(t) == 3 && t[0] == "removepanic":
+		// a predicate that panics at its nth invocation; the caller (this harness) recovers
+		set, ok := unhx(t[1])
+		nth, err := strconv.Atoi(t[2])
+		if !ok || err != nil || nth < 0 {
+			return "bad-op"
+		}
+		rs := []rune(set)
+		calls := 0
+		type predPanic struct{}
+		res, recovered := func() (res string, recovered bool) {
+			defer func() {
+				if v := recover(); v != nil {
+					if _, mine := v.(predPanic); !mine {
+						panic(v) // a panic of the library itself
+					}
+					recovered = true
+				}
+			}()
+			return strz.RemoveRunes(s, func(r rune) bool {
+				calls++
+				if calls == nth {
+					panic(predPanic{})
+				}
+				for _, x := range rs {
+					if x == r {
+						return true
+					}
+				}
+				return false
+			}), false
+		}()
+		if recovered {
+			return "panic-recovered"
+		}
+		return hx(led.keep(res))
 	case len(t) == 2 && t[0] == "s2c":
 		b, err := strconv.ParseBool(t[1])
 		if err != nil || (t[1] != "true" && t[1] != "false") {
 			return "bad-op"
 		}
-		return hx(strz.SnakeToCamelCase(s, b))
+		return hx(led.keep(strz.SnakeToCamelCase(s, b)))
 	case len(t) == 2 && t[0] == "round":
 		b, err := strconv.ParseBool(t[1])
 		if err != nil || (t[1] != "true" && t[1] != "false") {
 			return "bad-op"
 		}
-		return hx(strz.CamelCaseToSnake(strz.SnakeToCamelCase(s, b)))
+		return hx(led.keep(strz.CamelCaseToSnake(strz.SnakeToCamelCase(s, b))))
 	}
 	return "bad-op"
 }
 
+// isHist: header `@ C17 H` — every line `on <hex> <op…>` names its own subject.
+func isHist(c core.Case) bool {
+	t := core.Toks(c.Lines[0])
+	return len(t) == 3 && t[2] == "H"
+}
+
+// histLine splits `on <hex> <op…>`.
+func histLine(l string) (s string, t []string, ok bool) {
+	f := core.Toks(l)
+	if len(f) < 3 || f[0] != "on" {
+		return "", nil, false
+	}
+	s, ok = unhx(f[1])
+	return s, f[2:], ok
+}
+
+// asSingle rewrites line i of a history case as a single-subject case (for check/classify).
+func asSingle(c core.Case, out []string, i int) (core.Case, []string, bool) {
+	s, t, ok := histLine(c.Lines[i])
+	if !ok {
+		return core.Case{}, nil, false
+	}
+	kind := "s"
+	if len(s) > 512 {
+		kind = "L"
+	}
+	op := strings.Join(t, " ")
+	o := out[i]
+	if t[0] == "removepanic" {
+		op = "remove " + t[1] // when the predicate did not panic the result is that of an ordinary call
+	}
+	return core.Case{Lines: []string{"@ C17 " + kind + " " + hx(s), op}, Tag: c.Tag}, []string{"ok", o}, true
+}
+
+func implHist(c core.Case) []string {
+	out := []string{"ok"}
+	led := &ledger{}
+	for _, l := range c.Lines[1:] {
+		s, t, ok := histLine(l)
+		if !ok {
+			out = append(out, "bad-op")
+			continue
+		}
+		before := strings.Clone(s)
+		o := core.Guard(func() string { return callL(led, s, t) })
+		if len(s) > 512 && o != "panic" && o != "bad-op" && o != "panic-recovered" {
+			tt := t
+			if t[0] == "removepanic" {
+				tt = []string{"remove", t[1]}
+			}
+			if largeSkip(s, tt) {
+				o = "skip"
+			}
+		}
+		if s != before {
+			o = "input-modified"
+		}
+		if o != "panic" && o != "bad-op" {
+			if j := led.changed(); j >= 0 {
+				o = fmt.Sprintf("ledger-changed %d", j) // an EARLIER result changed during this call
+			}
+		}
+		out = append(out, o)
+	}
+	return out
+}
+
 func impl(c core.Case) []string {
+	if isHist(c) {
+		return implHist(c)
+	}
 	out := make([]string, 0, len(c.Lines))
 	s, ok := subject(c)
 	if !ok {
@@ -600,10 +843,16 @@ func impl(c core.Case) []string {
 	before := strings.Clone(s)
 	out = append(out, "ok")
 	large := isLarge(c)
+	led := &ledger{}
 	for _, l := range c.Lines[1:] {
 		t := core.Toks(l)
-		o := core.Guard(func() string { return call(s, t) })
-		if large && o != "panic" && o != "bad-op" && len(t) > 0 && largeSkip(s, t) {
+		o := core.Guard(func() string { return callL(led, s, t) })
+		if o != "panic" && o != "bad-op" {
+			if j := led.changed(); j >= 0 {
+				o = fmt.Sprintf("ledger-changed %d", j)
+			}
+		}
+		if large && o != "panic" && o != "bad-op" && len(t) > 0 && largeSkip(s, t) && !strings.HasPrefix(o, "ledger-changed") {
 			o = "skip" // the call was made (no panic); the result is outside the oracle's linear evaluation
 		}
 		out = append(out, o)
@@ -629,6 +878,32 @@ func width(rs []rune) int {
 }
 
 func check(c core.Case, out []string) *core.Failure {
+	if isHist(c) {
+		for i := 1; i < len(c.Lines); i++ {
+			_, t, ok := histLine(c.Lines[i])
+			if !ok || out[i] == "bad-op" || out[i] == "skip" {
+				continue
+			}
+			if strings.HasPrefix(out[i], "ledger-changed") {
+				return &core.Failure{Key: "result-changed", Desc: fmt.Sprintf("line %d (%s): a string returned by an EARLIER call of this case (result #%s) changed during this call — results must not share memory with later calls", i, clipStr(c.Lines[i]), strings.TrimPrefix(out[i], "ledger-changed "))}
+			}
+			if out[i] == "input-modified" {
+				return &core.Failure{Key: "input-modified", Desc: fmt.Sprintf("line %d (%s) changed its input string", i, clipStr(c.Lines[i]))}
+			}
+			if t[0] == "removepanic" && out[i] == "panic-recovered" {
+				continue // the predicate's own panic, recovered by the caller
+			}
+			sc, so, ok := asSingle(c, out, i)
+			if !ok {
+				continue
+			}
+			if f := check(sc, so); f != nil {
+				f.Desc = fmt.Sprintf("history line %d of %d: ", i, len(c.Lines)-1) + f.Desc
+				return f
+			}
+		}
+		return nil
+	}
 	s, ok := subject(c)
 	if !ok {
 		return nil
@@ -640,6 +915,9 @@ func check(c core.Case, out []string) *core.Failure {
 		t := core.Toks(c.Lines[i])
 		if len(t) == 0 || out[i] == "bad-op" || out[i] == "skip" {
 			continue
+		}
+		if strings.HasPrefix(out[i], "ledger-changed") {
+			return &core.Failure{Key: "result-changed", Desc: fmt.Sprintf("line %d (%s): a string returned by an EARLIER call of this case changed during this call", i, clipStr(c.Lines[i]))}
 		}
 		fn := t[0]
 		// arguments in scope: non-negative (and -1 for Sub's length)
@@ -806,7 +1084,56 @@ func check(c core.Case, out []string) *core.Failure {
 	return nil
 }
 
+func clipStr(s string) string {
+	if len(s) > 120 {
+		return s[:120] + "…"
+	}
+	return s
+}
+
 func classify(c core.Case, out []string) []string {
+	if isHist(c) {
+		seen := map[string]bool{"stream-kind:history": true}
+		afterPanic := false
+		long := 0
+		for i := 1; i < len(c.Lines); i++ {
+			_, t, ok := histLine(c.Lines[i])
+			if !ok {
+				continue
+			}
+			if out[i] == "panic-recovered" {
+				seen["history:predicate-panic-recovered"] = true
+				afterPanic = true
+				continue
+			}
+			if afterPanic {
+				seen["history:"+t[0]+"-after-recovered-panic"] = true
+			}
+			if n := len(out[i]) / 2; n >= 1024 && out[i] != "skip" {
+				long++
+				if long > 1 {
+					seen["history:later-call-after-long-result"] = true
+				}
+				for _, th := range []int{1024, 4096, 65536} {
+					if n >= th {
+						seen[fmt.Sprintf("history:result>=%d-bytes", th)] = true
+					}
+				}
+			}
+			if sc, so, ok := asSingle(c, out, i); ok {
+				for _, l := range classify(sc, so) {
+					if !strings.HasPrefix(l, "subject:") {
+						seen[l] = true
+					}
+				}
+			}
+		}
+		var ls []string
+		for l := range seen {
+			ls = append(ls, l)
+		}
+		return ls
+	}
 	s, ok := subject(c)
 	if !ok {
 		return []string{"bad-header"}
